@@ -44,7 +44,9 @@ def make_trees(tmp, tier, seed):
     trees = [("realistic", os.path.join(VERIF, "specs", "realistic")), ("crossref", os.path.join(VERIF, "specs", "crossref")),
              # siblings: types used with and without an underlying-type override from sibling directories only (no root
              # file resolves them first), so the resolution order follows the directory enumeration order
-             ("siblings", os.path.join(VERIF, "specs", "siblings"))]
+             ("siblings", os.path.join(VERIF, "specs", "siblings")),
+             # gaps: directories without a protocol.xml of their own between the root and the files that declare types
+             ("gaps", os.path.join(VERIF, "specs", "gaps"))]
     rng = random.Random(seed)
     src = trees[0][1]
     files = []
@@ -219,7 +221,7 @@ def run(tier, seed):
                 except SyntaxError as e:
                     failures.append({"kind": "emitted-file-does-not-compile", "tree": tname, "file": rel, "error": str(e)})
             # importability over an overlay copy (only for trees in the documented layout)
-            if tname.startswith("realistic") or tname == "crossref":
+            if tname.startswith("realistic") or tname in ("crossref", "gaps"):
                 ov = os.path.join(tmp, "overlay-" + tname)
                 shutil.copytree(os.path.join(repo.REPO, "src", "eolib"), os.path.join(ov, "eolib"),
                                 ignore=shutil.ignore_patterns("__pycache__", "_generated"))
